@@ -2,7 +2,7 @@
 //! at any position of a history of compilations, from any thread.  Counter draws are recorded (hook).
 use crate::sqlx::*;
 use crate::util::*;
-use qrlew::{builder::With, relation::{Relation, Variant as _}, sql::parse};
+use qrlew::{builder::With, data_type::DataTyped, relation::{Relation, Variant as _}, sql::parse};
 use serde_json::{json, Value as J};
 use std::collections::hash_map::DefaultHasher;
 use std::hash::{Hash, Hasher};
@@ -21,12 +21,15 @@ fn job(sql: &str, relations: &qrlew::hierarchy::Hierarchy<Arc<Relation>>) -> J {
             let rendered = guarded(|| render(&r)).unwrap_or_else(|p| format!("panic:{p}"));
             let rendered2 = guarded(|| render(&r)).unwrap_or_else(|p| format!("panic:{p}"));
             let names: Vec<String> = nodes(&r).iter().map(|n| format!("{}({})", n.name(), n.schema().iter().map(|f| f.name().to_string()).collect::<Vec<_>>().join(","))).collect();
+            // the rendered SQL with every generated name replaced by its rank of appearance, and the column types alone
+            let nsql = guarded(|| crate::rr::normalised_sql(&r)).unwrap_or_else(|p| format!("panic:{p}"));
+            let types: Vec<String> = nodes(&r).iter().map(|n| n.schema().iter().map(|f| format!("{:?}", f.data_type())).collect::<Vec<_>>().join(",")).collect();
             json!({"outcome": "ok", "debug": h(&format!("{:?}", r)), "display": h(&format!("{}", r)), "rendered": h(&rendered), "render_twice_same": rendered == rendered2,
-                   "names": h(&names), "root": r.name()})
+                   "names": h(&names), "root": r.name(), "nsql": h(&nsql), "types": h(&types)})
         }
-        Ok(Ok(Err(e))) => json!({"outcome": "err", "debug": h(&format!("{e}")), "display": "", "rendered": "", "render_twice_same": true, "names": "", "root": ""}),
-        Ok(Err(e)) => json!({"outcome": "err", "debug": h(&format!("{e}")), "display": "", "rendered": "", "render_twice_same": true, "names": "", "root": ""}),
-        Err(p) => json!({"outcome": "panic", "debug": h(&p), "display": "", "rendered": "", "render_twice_same": true, "names": "", "root": ""}),
+        Ok(Ok(Err(e))) => json!({"outcome": "err", "debug": h(&format!("{e}")), "display": "", "rendered": "", "render_twice_same": true, "names": "", "root": "", "nsql": "", "types": ""}),
+        Ok(Err(e)) => json!({"outcome": "err", "debug": h(&format!("{e}")), "display": "", "rendered": "", "render_twice_same": true, "names": "", "root": "", "nsql": "", "types": ""}),
+        Err(p) => json!({"outcome": "panic", "debug": h(&p), "display": "", "rendered": "", "render_twice_same": true, "names": "", "root": "", "nsql": "", "types": ""}),
     }
 }
 
